@@ -30,7 +30,7 @@ def cases(draw):
     nkeys = sum(1 for s_ in h["steps"] if s_["op"] in ("keygen", "nd_keygen", "qualify", "nd_qualify", "resample"))
     key = nkeys - 1 if draw(st.integers(0, 4)) else draw(st.integers(0, 7))
     return {"h": h, "probe": probe, "key": key, "slot": draw(st.integers(0, 7)), "v": draw(c11.value()),
-            "via": draw(st.sampled_from(("qualify", "nd_qualify", "adjust", "set_then_hide"))), "comp": draw(st.sampled_from(("a", "b", "c"))),
+            "via": draw(st.sampled_from(("qualify", "nd_qualify", "adjust", "set_then_hide"))), "comp": draw(st.sampled_from(("a", "b", "c", "b_inf", "c_inf", "b_inf_junk", "c_inf_junk"))),
             "stream": draw(st.binary(min_size=0, max_size=40)), "seed": draw(st.integers(0, 2**32))}
 
 
@@ -156,19 +156,36 @@ def check(ctx, lib, c):
         expect(W.decrypt(ct, sk=k["h"]) == msg, "decrypt/positive-control", lambda: "pattern=%r" % (pat,))
         blob = W.blob_bytes(ct, 3)
         a, b, cc = blob[:576], blob[576:576 + W.g2sz], blob[576 + W.g2sz:576 + W.g2sz + W.g1sz]
-        if c["comp"] == "a":
+        comp = c["comp"]
+        if comp == "a":
             a = W.gt_mul(a, lib.const("generator_pairing"))
-        elif c["comp"] == "b":
+        elif comp == "b":
             b = W.g2_add(b, lib.const("g2_one"))
-        else:
+        elif comp == "c":
             cc = W.g1_add(cc, lib.const("g1_one"))
+        elif comp.startswith("b_inf"):
+            # the component replaced by the identity: canonical (0,1,0), or the old coordinates with z = 0 (an identity just the same)
+            b = lib.const("g2_zero") if comp == "b_inf" else b[:2 * (W.g2sz // 3)] + bytes(W.g2sz // 3)
+        else:
+            cc = lib.const("g1_zero") if comp == "c_inf" else cc[:2 * (W.g1sz // 3)] + bytes(W.g1sz // 3)
         ctypes.memmove(ct, a + b + cc, len(a + b + cc))
-        got = W.decrypt(ct, sk=k["h"])
-        got_m = W.decrypt(ct, msk=ex.msk)
+        # the caller's output object still holds the plaintext of the earlier decryption
+        got = W.decrypt(ct, sk=k["h"], prefill=msg)
+        got_m = W.decrypt(ct, msk=ex.msk, prefill=msg)
+        # exact expectation from the decryption formula a * e(c, a1) / e(a0, b) with the library's single pairing (an identity
+        # argument contributes 1)
+        kv = W.sk_view(k["h"], max_slots=0)
+        expected = W.gt_mul(W.gt_mul(a, W.pairing(cc, kv["a1"])), W.gt_inv(W.pairing(kv["a0"], b)))
+        expect(got == expected, "decrypt/formula/%s" % comp, lambda: "decrypt of a ciphertext with modified %s is not a*e(c,a1)/e(a0,b): pattern=%r" % (comp, pat))
+        expected_m = W.gt_mul(a, W.gt_inv(W.pairing(W.blob_bytes(ex.msk, 1)[:W.g1sz], b)))
+        expect(got_m == expected_m, "decrypt_master/formula/%s" % comp, lambda: "master decryption of a ciphertext with modified %s is not a/e(msk,b): pattern=%r" % (comp, pat))
         ctx.count(c, True, "probe-tamper:%s" % c["comp"])
-        expect(got != msg, "decrypt/tampered-%s" % c["comp"], lambda: "pattern=%r" % (pat,))
-        if c["comp"] != "c":
-            expect(got_m != msg, "decrypt_master/tampered-%s" % c["comp"], "master decryption ignores a ciphertext component")
+        if "_inf" not in comp:
+            # (with an identity written over a component the formula above is the whole expectation: if the encryption exponent
+            # happened to be 0 the component was the identity already and the message still comes out)
+            expect(got != msg, "decrypt/tampered-%s" % comp, lambda: "pattern=%r" % (pat,))
+            if comp != "c":
+                expect(got_m != msg, "decrypt_master/tampered-%s" % comp, "master decryption ignores a ciphertext component")
     finally:
         ex.close()
 
